@@ -631,7 +631,7 @@ def step_history(case, lines):
     return [x if x is not None else "inv 99 contains 0" for x in h]
 
 
-def step_correspondence(ctx, lin):
+def step_correspondence(ctx, lin, only=None):
     import conc_check
     model = conc_check.build_model(ctx, "Extract_SkipList.v", tag="skip_model")
     hh = vcheck.file_hash([os.path.join(vcheck.VERIF, "harness", "C15", "step_skip.cpp")])
@@ -640,6 +640,8 @@ def step_correspondence(ctx, lin):
     n = 4000 if ctx.thorough() else 500
     rng = ctx.rng.fork()
     cases = [c for c in load_corpus("C15") if c.get("step")] + [gen_step_case(rng, "s%d" % i) for i in range(n)]
+    if only is not None:
+        cases = [only]
     rc1, mlog, rc2, ilog, raw = conc_check.run_both(ctx, model, impl, cases, tag="skipstep", timeout=1500, fuel=60000)
     diverged, steps, first = 0, 0, None
     contended, shapes = 0, set()
@@ -717,6 +719,11 @@ def run(ctx):
     if ctx.replay:
         rp = json.load(open(ctx.replay))
         c = rp["case"]
+        if rp.get("step") or "first_divergence" in rp or "correspondence" in rp:
+            c.setdefault("id", "replay")
+            step_correspondence(ctx, lin, only=c)
+            ctx.coverage.update({"evaluations": 1, "distinct_nontrivial": 0, "rule": "replay (step correspondence)", "samples": [c]})
+            return ctx.finish(vcheck.STD_TRUSTED)
         c["variant"] = c["cfg"][0]
         viol = check_variant(ctx, lin, exes[c["variant"] // 10], c["variant"], [c], ctx.work, stats)
         for what, obj, sig in viol:
